@@ -241,6 +241,13 @@ theorem filter_eq_dictDel (d : Dict PVal) (fs fe : String) :
   funext kv
   by_cases h1 : kv.1 = fs <;> by_cases h2 : kv.1 = fe <;> simp [h1, h2, bne, Bool.and_comm]
 
+theorem dictDel_comm (d : Dict PVal) (a b : String) : dictDel (dictDel d a) b = dictDel (dictDel d b) a := by
+  unfold dictDel
+  rw [List.filter_filter, List.filter_filter]
+  congr 1
+  funext kv
+  rw [Bool.and_comm]
+
 /-- the property filter with the two field names in the other order (a harmless rewrite of the source) -/
 theorem filter_eq_dictDel' (d : Dict PVal) (fs fe : String) :
     (d.filter fun kv => !(kv.1 == fe || kv.1 == fs)) = dictDel (dictDel d fs) fe := by
@@ -254,7 +261,8 @@ theorem rloop2_step (fs fe : String) (cm : List (String × Kind)) (rd : ShpFileR
     (shapes : List Shape) (row : ShpShapeR × Dict PVal) :
     SrcIo.fromShapefile.loop2 fs fe cm rd shapes row = (readRow fs fe row).map (shapes ++ [·]) := by
   unfold SrcIo.fromShapefile.loop2 readRow classGet
-  simp only [hcm, filter_eq_dictDel, filter_eq_dictDel']
+  simp only [hcm, filter_eq_dictDel]
+  try rw [dictDel_comm row.2 fe fs]
   cases hk : convMap row.1.gtype with
   | none => rfl
   | some k =>
@@ -473,10 +481,11 @@ theorem tiFromFastkml_eq (kt : KTime) :
   unfold SrcIo.tiFromFastkml
   cases kt with
   | none => rfl
-  | stamp t => simp [ktIsStamp, ktTimestampDt, tiOfInts, fromKTime, Except.map, bind, Except.bind]
+  | stamp t =>
+    simp [ktIsStamp, ktIsSpan, ktTimestampDt, ktBeginDt, ktEndDt, tiOfInts, fromKTime, Except.map, bind, Except.bind]
   | span b e =>
     by_cases h : e < b <;>
-      simp [ktIsStamp, ktIsSpan, ktBeginDt, ktEndDt, tiOfInts, fromKTime, Except.map, bind, Except.bind, h]
+      simp [ktIsStamp, ktIsSpan, ktTimestampDt, ktBeginDt, ktEndDt, tiOfInts, fromKTime, Except.map, bind, Except.bind, h]
 
 /-! ## the importers with the translated helpers in place, and the headline theorems restated for them
 
